@@ -135,7 +135,7 @@ func (c *c19Ctx) genScenario(seed uint64, progs []*c19Prog) *Scenario {
 		s.Env = drawProcEnv(r, false)
 	}
 	if r.Chance(1, 10) {
-		s.Stdout = pick(r, []string{"closed", "devfull"})
+		s.Stdout = pick(r, []string{"closed", "devfull", "deadpipe"})
 	}
 	if r.Chance(1, 6) {
 		s.Argv0 = pick(r, []string{"nask", "gosk-2.0", "as"})
